@@ -300,16 +300,23 @@ theorem remove_is_the_source_u64 {D : Type} (g : Rng D) (fuel e sz cap : Nat) (a
 
 /-! ### the source's `contains`, whole: dispatch on the representation, then the translated arm -/
 
-/-- `SetU64::contains` as it is in the current source: `internal()` tells the five views apart (modelled by the
-constructors of `Rp` and the `bits` word: 64 dense, 1..63 bitmap table, otherwise plain table), then the arm's code
-as translated on every run -/
+/-- the layout dispatch at the end of `internal()` and of `internal_mut()` (which of `Big` / `Dense` / `Heap` a heap
+block's `bits` word selects), translated on every run, is the model's `isDense` / `isPlain` -/
+theorem dispatch_is_the_source_u64 (bits : Nat) :
+    Gen.layout_64 bits = (if isDense cfg64 bits then 1 else if isPlain cfg64 bits then 0 else 2) ∧
+    Gen.layout_mut_64 bits = Gen.layout_64 bits := layout_64_eq bits
+
+/-- `SetU64::contains` as it is in the current source: `internal()` tells the five views apart (the constructors of `Rp` for the
+tagged word; for a heap block the dispatch on its `bits` word, `Gen.layout_64`, translated on every run and proved to be
+the model's `isDense` / `isPlain`: `layout_64_eq`), then the arm's code as translated on every run -/
 def srcContains64 : Rp → Nat → Bool
   | .empty, _ => false
   | .stack t, e => Gen.tiny_contains_64 t.sz t.bits e
   | .heap _ _ bits a, e =>
-    if bits = 64 then Gen.contains_dense_64 e a
-    else if 0 < bits ∧ bits < 64 then Gen.contains_heap_64 e bits a
-    else Gen.contains_big_64 e bits a
+    match Gen.layout_64 bits with          -- the dispatch at the end of `internal()`, translated: 0 `Big`, 1 `Dense`, 2 `Heap`
+    | 0 => Gen.contains_big_64 e bits a
+    | 1 => Gen.contains_dense_64 e a
+    | _ => Gen.contains_heap_64 e bits a
 
 /-- it is the model's `contains` on every well-formed representation … -/
 theorem source_contains_is_model_u64 {r : Rp} (wf : WF cfg64 r) (e : Nat) (he : e < 2 ^ 64) :
@@ -318,15 +325,11 @@ theorem source_contains_is_model_u64 {r : Rp} (wf : WF cfg64 r) (e : Nat) (he : 
   | empty => rfl
   | stack t => exact tiny_contains_64_eq t e he
   | heap sz cap bits a =>
-    simp only [srcContains64]
-    split
-    · rename_i hb
-      subst hb
+    rcases layout_64_cases bits with ⟨hb, hl⟩ | ⟨hb, hl⟩ | ⟨hb, hl⟩ <;> simp only [srcContains64, hl]
+    · subst hb
       exact contains_dense_64_eq e sz cap a (heap_cap_of_wf cfg64_ok wf).1
-    · split
-      · rename_i hb
-        exact contains_heap_64_eq e sz cap bits a he hb
-      · exact contains_big_64_eq e sz cap bits a (by omega)
+    · exact contains_big_64_eq e sz cap bits a hb
+    · exact contains_heap_64_eq e sz cap bits a he hb
 
 /-- … hence **membership**: the `contains` of the current source, run on the words of any well-formed set (every
 layout), answers true exactly for the members -/
